@@ -273,6 +273,30 @@ package implementation
 // run-time-panic obligations this generates only the division ones are claimed by the check (nil/bounds/explicit-panic
 // obligations of these large bodies are generated, listed as not claimed, and not decided).
 
+// Index sweep, first instance: a call that carries parallel lists. SetTokenTuple's receive path indexes all four lists of
+// its parameter by the length of the first; that is safe because the send-time validation (run again at receive time) admits
+// only four lists of one length and re-packs them. ASSUMED (ABI round trip, lists): decoding a packed parameter yields lists
+// of the packed lengths.
+//@ spec abidec_TokenTuplesParam_TokenStandards_len(n string, v int) int
+//@ spec abidec_TokenTuplesParam_ZnnPercentages_len(n string, v int) int
+//@ spec abidec_TokenTuplesParam_QsrPercentages_len(n string, v int) int
+//@ spec abidec_TokenTuplesParam_MinAmounts_len(n string, v int) int
+//@ spec abipack_LLLL(n string, l0 int, c0 int, l1 int, c1 int, l2 int, c2 int, l3 int, c3 int) int
+//@ assume-global[abi-roundtrip-token-tuples] forall n string, l0 int, c0 int, l1 int, c1 int, l2 int, c2 int, l3 int, c3 int :: abidec_TokenTuplesParam_TokenStandards_len(n, abipack_LLLL(n, l0, c0, l1, c1, l2, c2, l3, c3)) == l0 && abidec_TokenTuplesParam_ZnnPercentages_len(n, abipack_LLLL(n, l0, c0, l1, c1, l2, c2, l3, c3)) == l1 && abidec_TokenTuplesParam_QsrPercentages_len(n, abipack_LLLL(n, l0, c0, l1, c1, l2, c2, l3, c3)) == l2 && abidec_TokenTuplesParam_MinAmounts_len(n, abipack_LLLL(n, l0, c0, l1, c1, l2, c2, l3, c3)) == l3
+//@ spec tupleLists(n string, d int) bool = abidec_TokenTuplesParam_ZnnPercentages_len(n, d) == abidec_TokenTuplesParam_TokenStandards_len(n, d) && abidec_TokenTuplesParam_QsrPercentages_len(n, d) == abidec_TokenTuplesParam_TokenStandards_len(n, d) && abidec_TokenTuplesParam_MinAmounts_len(n, d) == abidec_TokenTuplesParam_TokenStandards_len(n, d)
+//@ func SetTokenTupleMethod.ValidateSendBlock(p, block) -> (err)
+//@   attr uses abi-roundtrip-token-tuples
+//@   safety
+//@   requires p != nil && block != nil && block.Amount != nil
+//@   ensures[four-lists-of-one-length] err == nil ==> tupleLists(p.MethodName, bytesval(block.Data))
+//@   loop 1
+//@     invariant 0 <= index && param != nil && fresh(param) && length == len(param.TokenStandards) && length == len(param.ZnnPercentages) && length == len(param.QsrPercentages) && length == len(param.MinAmounts)
+//@ func SetTokenTupleMethod.ReceiveBlock(p, context, sendBlock) -> (descendants, err)
+//@   safety
+//@   requires p != nil && sendBlock != nil && sendBlock.Amount != nil
+//@   loop 1
+//@     invariant 0 <= i && param != nil && fresh(param) && tupleLists(p.MethodName, bytesval(sendBlock.Data)) && len(param.TokenStandards) == abidec_TokenTuplesParam_TokenStandards_len(p.MethodName, bytesval(sendBlock.Data)) && len(param.ZnnPercentages) == abidec_TokenTuplesParam_ZnnPercentages_len(p.MethodName, bytesval(sendBlock.Data)) && len(param.QsrPercentages) == abidec_TokenTuplesParam_QsrPercentages_len(p.MethodName, bytesval(sendBlock.Data)) && len(param.MinAmounts) == abidec_TokenTuplesParam_MinAmounts_len(p.MethodName, bytesval(sendBlock.Data))
+
 // Crediting a reward touches the contract's storage and the deposit objects it has just loaded - not the amounts handed in.
 //@ func addReward(context, epoch, reward)
 //@   trusted
